@@ -38,7 +38,7 @@ def run(tier):
     b = common.build(need_inproc=False)
     cs = cfgs(tier)
     rp = l3.Replay(b, v, cs, "checks.c03:judge", variants=2 if tier == "quick" else 3, pad_arrays=True)
-    shapes = '{"s","sa","os","aos","aas","aaos","oas","xdate","xbin","xdateNL","eo","ea"}' if tier == "quick" else "{}"
+    shapes = '{"s","sa","os","aos","aas","aaos","oas","xdate","xbin","xdateNL","eo","ea","sao","saa"}' if tier == "quick" else "{}"
     t = l3.generate("RedactorTW", "RedactorTW.cfg", cs, {"TWShapeKinds": shapes}, rp.sink)
     if not t.ok:
         raise common.Infra("TLC failed on RedactorTW: %s\n%s" % (t.violation, t.out[-800:]))
